@@ -130,7 +130,7 @@ void sim_yield(YKind k) {
     }
     bool consider = false;
     if (k == Y_EDGE) consider = true;
-    else if (R.policy == "call") consider = (k == Y_CALL);
+    else if (R.policy == "call") consider = (k == Y_CALL) && !t->in_act;
     else if (R.policy == "io" || R.policy == "edge") consider = true;
     if (!consider) return;
     if (k != Y_EDGE && R.rng.unit() >= R.switch_p) return;
